@@ -623,6 +623,9 @@ class Node:
         """
         for child in self.children_iter():
             child.parent = None
+            # Children are added back with add_node, which counts their
+            # affinity again.
+            self.decrement_affinity(child.affinity_counters)
         self.children = list()
         self.children_by_name = dict()
 
